@@ -134,7 +134,7 @@ def run_symx(job, setup, body, monolithic_upto=150, root_len=0, wit=None):
         return res
     ok, st = audit_tree(paths, root_len)
     cert = {'ok': ok, 'kind': 'decision-tree audit', **st}
-    if ok and len(paths) <= monolithic_upto:
+    if ok and len(paths) <= monolithic_upto and not ctx.any_fresh:   # path-local fresh variables are not part of the declared domain
         r = certificate_monolithic(ctx, paths)
         cert['monolithic'] = r
         cert['kind'] = 'decision-tree audit + unsat(domain and not OR(path conditions))'
@@ -149,3 +149,27 @@ def product_pins(names_ranges):
     names = [n for n, _ in names_ranges]
     for vals in itertools.product(*[list(r) for _, r in names_ranges]):
         yield dict(zip(names, vals))
+
+
+def z_is_median(g, vals):
+    """z3: g is the median of the real terms vals (mean of the middle two for an even count), by order statistics"""
+    k = len(vals)
+
+    def le(x):
+        return z3.Sum([z3.If(v <= x, 1, 0) for v in vals])
+
+    def ge(x):
+        return z3.Sum([z3.If(v >= x, 1, 0) for v in vals])
+    if k == 1:
+        return g == vals[0]
+    if k % 2:
+        h = (k + 1) // 2
+        return z3.Or([z3.And(g == v, le(v) >= h, ge(v) >= h) for v in vals])
+    h = k // 2
+    opts = []
+    for i in range(k):
+        for j in range(k):
+            if i != j:
+                a, b = vals[i], vals[j]
+                opts.append(z3.And(g == (a + b) / 2, a <= b, le(a) >= h, ge(a) >= h + 1, le(b) >= h + 1, ge(b) >= h))
+    return z3.Or(opts)
